@@ -176,8 +176,6 @@ def check(case, ctx):
         ctx.outcomes['numpy-raises'] += 1
         if exc is None:
             ctx.v(ID, "no-raise", "%s returned %s although NumPy raises %s(%s)" % (label, common.brief_res(res), type(np_exc).__name__, str(np_exc)[:80]))
-        elif type(exc) is not type(np_exc):
-            ctx.v(ID, "wrong-exc", "%s raised %s(%s), NumPy raises %s" % (label, type(exc).__name__, str(exc)[:100], type(np_exc).__name__))
         return klass
     if f == 'percentile' and not np.isscalar(case["q"]):
         exp = model.MA(e, [m.dims[red[0]] + "_percentile"] + exp_dims, [list(case["q"])] + exp_labs)
